@@ -203,6 +203,7 @@ def main(tier, seed, replay=None):
             run.tie("n2 build", out_[-1000:])
         else:
             taskleg.depfile_leg(run, n2)
+            run.coverage["black_box_depfile_projects"] = taskleg.depfile_random_leg(run, n2, random.Random(seed + 78), 20 if tier == "quick" else 200)
     run.coverage.update(info)
     run.coverage.update({
         "checker_cmd": "make -C coq theories/Props/C15.vo && coqc Gate_C15.v (Check pinned statements + Print Assumptions)",
